@@ -3,6 +3,7 @@ package main
 import (
 	"bufio"
 	"fmt"
+	"io"
 	"os"
 	"strconv"
 	"strings"
@@ -145,6 +146,10 @@ func runC12(cases []string, out *bufio.Writer, args []string) {
 						defer wg.Done()
 						var b []byte
 						for i := 0; i < k; i++ {
+							if w%2 == 1 { // every other writer hands over strings (io.WriteString uses a WriteString method when the handle has one)
+								io.WriteString(h, fmt.Sprintf("W%d.%d;", w, i))
+								continue
+							}
 							b = append(b[:0], fmt.Sprintf("W%d.%d;", w, i)...)
 							h.Write(b)
 						}
